@@ -13,7 +13,8 @@ theorems below are permutation-invariance statements, one per item of the proper
  6. the packages phase only ADDS to the re-export map            (`reexport_map_add_commutes`, `RmEquiv` consumers)
  7. file discovery and AST selection                             (`discovery_enumeration_order`)
  8. the former scope exclusions, now theorems: `_find_alias` iterates `sorted(qnames)`
-    (`findAlias_perm`, for every known qualified name; `findAlias_known`: a known candidate wins),
+    (`findAlias_perm`, for every known qualified name; `findAlias_known`: a non-empty known name wins,
+    the candidates are not consulted),
     the inferred return types come in SOURCE order (`InferTie` is no exclusion any
     more), the re-exported elements are sorted by `(name, id)` (`reexport_elements_order`)
  9. non-vacuity examples.
@@ -341,8 +342,8 @@ theorem findAlias_loop_perm {β : Type} (step : β → String → β) (init : β
     side condition, and for EVERY known qualified name `k` the caller passes (`known_qname`; the
     default `""` gives the three-argument statement).  (A single candidate is returned directly; a
     permutation of a singleton is the same singleton and permutations keep the length, so both sides
-    take the same branch; `known_qname in qnames` is a membership test, the same for every iteration
-    order.) -/
+    take the same branch; with a non-empty `known_qname` the candidates are not consulted at all, so
+    the invariance is trivial in that branch.) -/
 theorem findAlias_perm (env env' : AEnv) (s : VSt) (typeName : String) {qs qs' : List String}
     (h1 : assocGet? env.aliases typeName = some qs) (h2 : assocGet? env'.aliases typeName = some qs')
     (h : qs ~ qs') (k : String := "") :
@@ -357,17 +358,17 @@ theorem findAlias_perm_all (env env' : AEnv) (s : VSt) (typeName : String)
   p08_findAlias_perm_all env env' s typeName h k
 
 /-- The known qualified name wins.  If the name has no hit in the qualified imports of the current
-    module, `aliases[typeName]` is not a single candidate, and the qualified name `k` the caller
-    already knows (`enterClassdef`: the superclass's full name as resolved by mypy) is one of the
-    candidates, then `_find_alias` returns `k` (with its last dotted component as the name) — the
-    sorted loop and its substring heuristic are not consulted. -/
-theorem findAlias_known (env : AEnv) (s : VSt) (typeName k : String) {qs : List String} {m : Module}
+    module and the qualified name `k` the caller already knows (`enterClassdef`: the superclass's full
+    name, when mypy resolved it to a class definition) is not empty, then `_find_alias` returns `k`
+    (with its last dotted component as the name) — whatever `aliases[typeName]` is: neither the
+    candidates nor the sorted loop with its substring heuristic are consulted. -/
+theorem findAlias_known (env : AEnv) (s : VSt) (typeName k : String) {m : Module}
     (hm : bottomModule s = some m)
     (himp : ((searchAliasInImports m.qualifiedImports typeName).1 != "" &&
       (searchAliasInImports m.qualifiedImports typeName).2 != "") = false)
-    (h1 : assocGet? env.aliases typeName = some qs) (hlen : qs.length ≠ 1) (hk : k ∈ qs) :
+    (hk : k ≠ "") :
     findAlias env s typeName k = .ok (lastD "" (splitDot k), k) :=
-  p08_findAlias_known env s typeName k hm himp h1 hlen hk
+  p08_findAlias_known env s typeName k hm himp hk
 
 /-- (i) FORMERLY EXCLUDED, now decided by the sorted order: the name is defined in several modules
     (`aliases[name]` has ≥ 2 qualified names) and more than one of them has a module path that
@@ -502,16 +503,23 @@ example :
 
 /-- … the same by the theorem (its hypotheses hold here) -/
 example : findAlias (exEnvTable ["pkg.m.A.Table", "pkg.m.Table"]) exVStM "Table" "pkg.m.Table" = .ok ("Table", "pkg.m.Table") :=
-  findAlias_known _ exVStM "Table" "pkg.m.Table" (m := { id := "pkg/m", name := "m" }) rfl (by decide +kernel) rfl
-    (by decide) (by decide +kernel)
+  findAlias_known _ exVStM "Table" "pkg.m.Table" (m := { id := "pkg/m", name := "m" }) rfl (by decide +kernel)
+    (by decide)
+
+/-- ONLY the nested class is a candidate (the module-level `Table` is not in the alias table): the
+    known name `pkg.m.Table` is returned all the same; with the default `""` the single candidate is -/
+example :
+    findAlias (exEnvTable ["pkg.m.A.Table"]) exVStM "Table" "pkg.m.Table" = .ok ("Table", "pkg.m.Table") ∧
+    findAlias (exEnvTable ["pkg.m.A.Table"]) exVStM "Table" = .ok ("Table", "pkg.m.A.Table") := by
+  decide +kernel
 
 /-- … and the permutation theorem with a known name -/
 example : findAlias (exEnvTable ["pkg.m.A.Table", "pkg.m.Table"]) exVStM "Table" "pkg.m.Table" =
     findAlias (exEnvTable ["pkg.m.Table", "pkg.m.A.Table"]) exVStM "Table" "pkg.m.Table" :=
   findAlias_perm _ _ exVStM "Table" rfl rfl (List.Perm.swap _ _ _) "pkg.m.Table"
 
-/-- a known name that is NOT among the candidates changes nothing -/
-example : findAlias (exEnvTable ["pkg.m.A.Table", "pkg.m.Table"]) exVStM "Table" "other.Table" = .ok ("Table", "pkg.m.A.Table") := by
+/-- a known name that is NOT among the candidates is returned as well (the candidates are not consulted) -/
+example : findAlias (exEnvTable ["pkg.m.A.Table", "pkg.m.Table"]) exVStM "Table" "other.Table" = .ok ("Table", "other.Table") := by
   decide +kernel
 
 def exTupInt : Expr := .tuple [.int 1, .int 2]
